@@ -434,7 +434,7 @@ Example C03_x_hypotheses_satisfiable :
   lookup_x ascii_lower ascii_space (select_cert (fun _ => true) ex_valid) true ex_full 1 (Config [] n_fb) n_qy n_ip
            (EnvX (Some n_qy) [(n_sy, Stored ex_W true true)] [n_qy] None) = (ROk ex_f, ex_full) /\
   (* a ClientHelloInfo without a connection and without SNI: the local IP's certificate is not tried,
-     the name is empty and does not qualify: an error (never a panic: fix 023e424) *)
+     the name is empty and does not qualify: an error (never a panic: fix 9180bec) *)
   fst (lookup_x ascii_lower ascii_space (select_cert (fun _ => true) ex_valid) false ex_state 0 (Config [] [])
          [] [] (EnvX (Some []) [] [] None)) = RErr /\
   (* nothing in storage: the fallback, the cache untouched *)
